@@ -109,6 +109,83 @@ class BS:
 EMPTY = BS()
 
 
+def _unq(t):
+    """a string of the dump: "-" (NULL) or a quoted text with %xx escapes"""
+    if t == "-" or len(t) < 2:
+        return None
+    return re.sub(r"%([0-9a-fA-F]{2})", lambda m: chr(int(m.group(1), 16)), t[1:-1])
+
+
+def _infos(t):
+    res = {}
+    if t == "-":
+        return res
+    for pair in t.split(";"):
+        n, _, v = pair.partition("=")
+        n, v = _unq(n), _unq(v)
+        if n is not None and n not in res:          # hwloc_obj_get_info_by_name: the first one
+            res[n] = v or ""
+    return res
+
+
+def atoi(t):
+    m = re.match(r"\s*([+-]?\d+)", t or "")
+    return int(m.group(1)) if m else 0
+
+
+def passes_filter(o, flt):
+    """hwloc_calc_check_object_filtered for the bracket filters [tier=N] and [subtype] / [subtype=S]"""
+    if flt is None:
+        return True
+    if flt[0] == "tier":
+        if o["ty"] != 14:
+            return True
+        t = o["infos"].get("MemoryTier")
+        return t is not None and atoi(t) == flt[1]
+    if flt[0] == "subtype":
+        return o["st"] is not None and o["st"].lower() == flt[1].lower()
+    return True
+
+
+def level_filters(info, depth):
+    """the bracket filters the objects of a level give a meaning to: every memory tier and every subtype present"""
+    res = []
+    objs = info.level(depth)
+    if depth == -3:
+        tiers = sorted(set(atoi(o["infos"]["MemoryTier"]) for o in objs if "MemoryTier" in o["infos"]))
+        if tiers:
+            res += [("tier", t) for t in tiers] + [("tier", max(tiers) + 1)]
+    subs = sorted(set(o["st"] for o in objs if o["st"] and re.fullmatch(r"[A-Za-z0-9_]{1,30}", o["st"])))
+    res += [("subtype", x) for x in subs]
+    if subs:
+        res.append(("subtype", "NoSuchSubtype"))
+    return res
+
+
+def filter_text(rng, flt):
+    if flt[0] == "tier":
+        return "[tier=%d]" % flt[1]
+    return "[%s%s]" % (rng.choice(["", "subtype="]), flt[1] if rng.random() < 0.7 else flt[1].lower())
+
+
+def add_filter(rng, info, step, p=0.5):
+    """step with a bracket filter (5th element) when its level has filterable values"""
+    d, ty = step[0], step[1]
+    fl = level_filters(info, d)
+    if not fl or rng.random() >= p or info.tdepth.get(ty, None) != d:      # the type must name this single level
+        return step
+    flt = rng.choice(fl)
+    name = rng.choice(SPELL.get(ty, [TYPE_NAMES[ty]]))       # a type NAME: a depth number takes no filter
+    rg = rng.choice([("all",), ("one", rng.randrange(3)), ("fromto", 0, rng.randrange(1, 4)), step[3]])
+    text = name + filter_text(rng, flt)
+    if len(text) > 20:
+        # hwloc_calc_parse_level copies type and filter into char typestring[21]: longer ones are rejected
+        text = name + "[%s]" % flt[1] if flt[0] == "subtype" else text
+        if len(text) > 20:
+            return step
+    return (d, ty, text, rg, flt)
+
+
 # ---------------------------------------------------------------------------
 # the dump as python data
 class Info:
@@ -133,8 +210,8 @@ class Info:
                 f = l.split(" ")
                 kv = dict(x.split("=", 1) for x in f[2:] if "=" in x)
                 o = {"id": int(f[1]), "ty": int(kv["ty"]), "dp": int(kv["dp"]), "os": int(kv["os"]), "li": int(kv["li"]),
-                     "cs": BS.parse(kv["cs"]), "nds": BS.parse(kv["nds"]), "par": kv["par"], "st": kv.get("st", "-"),
-                     "at": kv.get("at", "-")}
+                     "cs": BS.parse(kv["cs"]), "nds": BS.parse(kv["nds"]), "par": kv["par"], "st": _unq(kv.get("st", "-")),
+                     "at": kv.get("at", "-"), "infos": _infos(kv.get("inf", "-"))}
                 self.objs[o["id"]] = o
         self.root = self.objs[0]
 
@@ -227,7 +304,7 @@ def gen_mem_path(rng, info):
     r = rng.random()
     nn = max(1, len(info.levels.get(-3, [])))
     rg = ("all",) if r < 0.5 else ("one", rng.randrange(min(nn, 3))) if r < 0.8 else gen_range(rng, min(nn, 4))
-    steps.append((-3, 14, type_spelling(rng, info, -3, 14), rg))
+    steps.append(add_filter(rng, info, (-3, 14, type_spelling(rng, info, -3, 14), rg), 0.6))
     return steps
 
 
@@ -252,7 +329,7 @@ def gen_path(rng, info, deeper_only=True):
         width = len(info.levels.get(d, []))
         if steps:
             width = max(1, width // max(1, len(info.levels.get(steps[0][0], [])) or 1))
-        steps.append((d, ty, type_spelling(rng, info, d, ty), gen_range(rng, width)))
+        steps.append(add_filter(rng, info, (d, ty, type_spelling(rng, info, d, ty), gen_range(rng, width)), 0.4))
     return steps
 
 
@@ -372,6 +449,14 @@ def gen_cmdline(rng, info, spec_only=False, mem=False):
             for b in range(lo, min(n, lo + rng.choice([1, 1, 2, 3]))):
                 v |= 1 << b
             locs = [("loc", "", "set", "0x%x" % v)]
+    if out[0] in ("I", "N") and info.tdepth.get(dict(olv).get(out[2], -1), None) == out[2] or (out[0] in ("I", "N") and out[2] == -3):
+        fl = level_filters(info, out[2])
+        if fl and rng.random() < 0.5:
+            flt = rng.choice(fl)
+            ty = dict(olv)[out[2]]
+            text = rng.choice(SPELL.get(ty, [TYPE_NAMES[ty]])) + filter_text(rng, flt)
+            if len(text) <= 20:
+                out = (out[0], text, out[2], flt)
     post = []
     if out[0] == "set":
         r = rng.random()
